@@ -211,12 +211,13 @@ def load_known(prop_id):
 SRC_TIE = {
     'C01': ['Codec', 'Msg'], 'C02': ['Codec', 'Msg'], 'C03': ['Codec'],
     'C04': ['Tok', 'Parser'], 'C05': ['Tok', 'Parser'], 'C06': ['Tok', 'Parser'], 'C18': ['Tok'], 'C19': ['Tok'],
-    'C07': ['Vlq', 'VlqRead', 'Tracks', 'Writer', 'Reader'], 'C08': ['Vlq', 'VlqRead', 'Writer', 'Reader'], 'C09': ['Meta', 'Vlq'],
+    'C07': ['Vlq', 'VlqRead', 'Tracks', 'Writer', 'Reader'], 'C08': ['Vlq', 'VlqRead', 'Writer', 'Reader'], 'C09': ['Meta', 'Vlq', 'MetaFrame'],
     'C12': ['Tracks'], 'C16': ['Tracks'],
 }
 SRC_TIE_FILES = {
     'Codec': ['mido/messages/encode.py', 'mido/messages/decode.py', 'mido/messages/checks.py'],
     'Parser': ['mido/parser.py', 'mido/tokenizer.py'],
+    'MetaFrame': ['mido/midifiles/meta.py'],
     'Msg': ['mido/messages/decode.py', 'mido/messages/encode.py', 'mido/messages/specs.py'],
     'Tok': ['mido/tokenizer.py'],
     'Meta': ['mido/midifiles/meta.py'],
@@ -394,6 +395,11 @@ class Check:
         for xs in ([], [5], [5, 6, 7]):
             for i in (-4, -3, -1, 0, 1, 2, 3):
                 reqs.append('pyop idx %d %s' % (i, ' '.join(map(str, xs)))); want.append(py(lambda: xs[i]))
+        for xs in ([], [5], [5, 6, 7, 8, 9]):
+            for lo in (-7, -2, -1, 0, 1, 2, 4, 5, 6, 9):
+                reqs.append('pyop slicefrom %d %s' % (lo, ' '.join(map(str, xs)))); want.append(' '.join(map(str, xs[lo:])))
+                for hi in (-7, -2, 0, 1, 3, 5, 8):
+                    reqs.append('pyop slice %d %d %s' % (lo, hi, ' '.join(map(str, xs)))); want.append(' '.join(map(str, xs[lo:hi])))
         for n in (-2, 0, 1, 5):
             reqs.append(f'pyop range {n}'); want.append(' '.join(map(str, range(n))))
         # dicts: insertion order, d[k] = v on an existing key keeps its place, update(), {k: v for ...} with repeated keys
